@@ -56,7 +56,7 @@ fn main() {
         match wl.as_str() {
             // upper-layer workloads observe the API; chmux hook events would only bloat their traces
             "rwlock" => install_hook_sink_for(&["rw_"]),
-            "robs_script" | "bcast" | "watch" => {}
+            "robs_script" | "bcast" | "watch" | "typed_base" | "typed_mpsc" => {}
             _ => install_hook_sink(),
         }
         match wl.as_str() {
@@ -128,6 +128,12 @@ fn main() {
             "block" => {
                 rt.block_on(chmux_block::scenario(s));
             }
+            "typed_base" => {
+                rt.block_on(typed::base_scenario(s, get("cut", 0) != 0, get("variant", 0)));
+            }
+            "typed_mpsc" => {
+                rt.block_on(typed::mpsc_scenario(s, get("cut", 0) != 0, get("flood", 0) != 0));
+            }
             "bcast" => {
                 rt.block_on(bcast_watch::broadcast_scenario(s, get("remote", 1) != 0, get("cut", 0) != 0));
             }
@@ -190,6 +196,9 @@ fn main() {
             }
             "peer" => {
                 rt.block_on(chmux_peer::scenario(s, get("hostile", 1) != 0));
+            }
+            "ret_cancel" => {
+                rt.block_on(chmux_misc::ret_cancel(s));
             }
             "acc_cancel" => {
                 rt.block_on(chmux_misc::acc_cancel(s));
